@@ -179,6 +179,10 @@ def run(ctx):
                   "hook_faults": "every single invocation x 2 kinds", "features": 2}
     ctx.sweep(run_case, runcases.step_cases(ctx.tier), chunk=48, name="programs x outcomes x configs")
     ctx.sweep(run_case, runcases.fault_cases(ctx.tier), chunk=48, name="single hook/cleanup faults")
+    ctx.sweep(run_case, runcases.excclass_cases(ctx.tier), chunk=48,
+              name="exception classes around every except clause of Step.run, with and without @wip")
+    ctx.sweep(run_case, runcases.combo_cases(ctx.tier), chunk=48,
+              name="combinations of --stop / --dry-run / --wip / continue_after_failed_step / --tags")
     ctx.sweep(main_exit_case, exit_cases(ctx.tier), chunk=2, name="exit code of main()/python -m behave")
     classes = set(k[0] for k in ctx.nt if k and isinstance(k, tuple))
     for need in ("fail:step:s", "fail:step:bg", "fail:step:o", "fail:step:s@rule", "fail:step:o@rule", "fail:step:bg@rule",
